@@ -4,7 +4,7 @@ from . import core
 from .core import Outcome, Infra, log
 
 PID = 'C13'
-INVS = ['C13_NoPanic', 'C13_ErrorReported', 'C13_NoWedge', 'C13_EndedOnce', 'C13_Multi', 'C13_NoUnackedDurable', 'C13_NotEndedTwice']
+INVS = ['C13_NoPanic', 'C13_ErrorReported', 'C13_NoWedge', 'C13_EndedOnce', 'C13_Multi', 'C13_NoUnackedDurable', 'C13_NotEndedTwice', 'C13_StopAcksByCommit']
 
 
 def trace_cfg(keys, vals, invs):
